@@ -192,8 +192,21 @@ func (env *Env) evalCall(x *ast.CallExpr, st *State) Val {
 				}
 				c.decls.declFun(pred, []string{env.sortOf(fv.Ty)}, "Bool")
 				if fv.Fn != nil && fv.Fn.Lit != nil {
+					// a receive that is one alternative of a select (several cases, or a default) is
+					// not a wait: the function can return without it
 					found := false
+					skip := map[ast.Node]bool{}
 					ast.Inspect(fv.Fn.Lit.Body, func(n ast.Node) bool {
+						if sel, ok := n.(*ast.SelectStmt); ok && len(sel.Body.List) > 1 {
+							for _, cl := range sel.Body.List {
+								if cc, ok := cl.(*ast.CommClause); ok && cc.Comm != nil {
+									skip[cc.Comm] = true
+								}
+							}
+						}
+						if skip[n] {
+							return false
+						}
 						if u, ok := n.(*ast.UnaryExpr); ok && u.Op == token.ARROW {
 							found = true
 						}
